@@ -4,7 +4,9 @@ use crate::mc::*;
 use crate::Ctx;
 use rrtk::*;
 
-pub const TS: [i64; 15] = [i64::MIN, i64::MIN + 1, -1_500_000_007, -1_500_000_000, -2, -1, 0, 1, 2, 1_500_000_000, 1_500_000_007, (1 << 53), (1 << 53) + 1, i64::MAX - 1, i64::MAX];
+/// (2^31 - 1, 2^31, 3e9, 2^32 and their negative counterparts: values whose 32-bit words sit on both sides of
+/// a sign or carry boundary - a comparison done word by word, or through a narrower integer, is wrong on them)
+pub const TS: [i64; 23] = [i64::MIN, i64::MIN + 1, -(1 << 32), -3_000_000_000, -(1 << 31) - 1, -(1 << 31), -1_500_000_007, -1_500_000_000, -2, -1, 0, 1, 2, 1_500_000_000, 1_500_000_007, (1 << 31) - 1, 1 << 31, 3_000_000_000, 1 << 32, (1 << 53), (1 << 53) + 1, i64::MAX - 1, i64::MAX];
 
 fn same<T: Payload>(a: &T, b: &T) -> bool {
     let (x, y) = (a.bits(), b.bits());
@@ -262,14 +264,14 @@ fn helpers(eng: &mut Eng) {
 pub fn run(ctx: &Ctx) -> Vec<Eng> {
     let mut e1 = Eng::new(
         "c03-datum-operators",
-        "every Datum operator impl of src/datum.rs (table cross-checked against the source; a missing impl is a machinery error) instantiated for every payload type it admits x all 225 ordered pairs of the timestamp alphabet {MIN, MIN+1, -(1.5e9+7), -1.5e9, -2..2, 1.5e9, 1.5e9+7, 2^53, 2^53+1, MAX-1, MAX} (adjacent values at magnitudes where f32 / f64 arithmetic cannot tell them apart); result time = newer operand (scalar forms: unchanged), payload = raw operator; non-trivial = the two timestamps differ",
-        "34 impl blocks, 85 instantiations x 225 pairs (scalar forms x 15)",
+        "every Datum operator impl of src/datum.rs (table cross-checked against the source; a missing impl is a machinery error) instantiated for every payload type it admits x all 529 ordered pairs of the timestamp alphabet {MIN, MIN+1, +-2^32, +-3e9, +-2^31, 2^31-1, -2^31-1, +-(1.5e9+7), +-1.5e9, -2..2, 2^53, 2^53+1, MAX-1, MAX} (adjacent values at magnitudes where f32 / f64 arithmetic cannot tell them apart; values whose 32-bit words straddle sign and carry boundaries); result time = newer operand (scalar forms: unchanged), payload = raw operator; non-trivial = the two timestamps differ",
+        "34 impl blocks, 85 instantiations x 529 pairs (scalar forms x 23)",
     );
     datum_ops(&mut e1);
     let mut e2 = Eng::new(
         "c03-selection-helpers",
-        "replace_if_older_than, replace_if_none_or_older_than(_option), latest() (both argument orders) on all 225 timestamp pairs plus empty slot / empty candidate; non-trivial = timestamps differ",
-        "225 pairs + 15 x 4 empty cases",
+        "replace_if_older_than, replace_if_none_or_older_than(_option), latest() (both argument orders) on all 529 timestamp pairs plus empty slot / empty candidate; non-trivial = timestamps differ",
+        "529 pairs + 23 x 4 empty cases",
     );
     helpers(&mut e2);
     let (mw, mn) = if ctx.thorough { (6, 7) } else { (5, 5) };
